@@ -249,6 +249,18 @@ theorem sliceByIndex_none (s : State K) (start step : ℕ) (hs : 1 ≤ step) :
   have h4 : ¬ ((s.x.length : ℤ) < 0) := by omega
   simp [h0, h3, h4]
 
+theorem sliceByIndex_neg_stop (s : State K) (start : ℕ) (stop : ℤ) (step : ℕ) (hs : 1 ≤ step)
+    (h : stop < 0) (h2 : -stop ≤ s.x.length) :
+    sliceByIndex s (start : ℤ) (some stop) step
+      = .ok (sliceStep s.x start ((s.x.length : ℤ) + stop).toNat step,
+             sliceStep s.y start ((s.x.length : ℤ) + stop).toNat step) := by
+  unfold sliceByIndex
+  have h0 : ¬ ((start : ℤ) < 0) := by omega
+  have h1 : ¬ (stop > (s.x.length : ℤ)) := by omega
+  have h3 : step ≠ 0 := by omega
+  have h4 : ¬ ((s.x.length : ℤ) + stop < 0) := by omega
+  simp [h0, h1, h3, h4, h]
+
 theorem sliceByIndex_neg_start (s : State K) (start : ℤ) (stop : Option ℤ) (step : ℕ)
     (h : start < 0) : sliceByIndex s start stop step = .error .valueError := by
   simp [sliceByIndex, h]
@@ -642,6 +654,14 @@ theorem ofFn_length (n : ℕ) (f : ℕ → K) : (ofFn n f).length = n := by simp
 
 theorem ofFn_getElem (n : ℕ) (f : ℕ → K) (i : ℕ) (hi : i < (ofFn n f).length) :
     (ofFn n f)[i] = f i := by simp [ofFn]
+
+theorem ofFn_headD (n : ℕ) (f : ℕ → K) (hn : 1 ≤ n) : (ofFn n f).headD 0 = f 0 := by
+  obtain ⟨m, rfl⟩ : ∃ m, n = m + 1 := ⟨n - 1, by omega⟩
+  simp [ofFn, List.range_succ_eq_map]
+
+theorem ofFn_getLastD (n : ℕ) (f : ℕ → K) (hn : 1 ≤ n) : (ofFn n f).getLastD 0 = f (n - 1) := by
+  obtain ⟨m, rfl⟩ : ∃ m, n = m + 1 := ⟨n - 1, by omega⟩
+  simp [ofFn, List.range_succ]
 
 /-! ## `noise_gauss`, `spline_smooth` -/
 
